@@ -108,6 +108,11 @@ def run_one(chk, sseed, nrepos=1, directed=None):
             versions.append(nv)
             kinds.append("flavour-drop")
             chk.count("flavour_drop_histories_with_a_drop", 1 if dropped else 0)
+        if directed == "config-shrink":
+            # the upstream stays as it is, the configuration is reduced (a codename, or a component, is taken out of mirror.list):
+            # the final run transfers nothing and still has to leave exactly what a first-ever mirror of the reduced configuration has
+            versions.append(copy.deepcopy(versions[-1]))
+            kinds.append("same-upstream")
         final = versions[-1]
         stores_f = w.stores(final)
         if any(common.has_s3(r, w.cfgs[r["url"]], stores_f[r["url"]]) for r in final):
@@ -119,6 +124,8 @@ def run_one(chk, sseed, nrepos=1, directed=None):
             cls = rng.choice(["none", "none", "transient", "persistent-required", "crash", "skip"])
             if directed == "kill-before-pool-utime" and hi == 0:
                 cls = "crash"
+            if directed == "config-shrink" and hi == len(versions) - 2:
+                cls = "none"
             if directed == "flavour-drop" and hi == len(versions) - 2 and sseed.endswith(("-0", "-1")):
                 cls = "none"   # corpus: the mirror is up to date with the state right before the drop, the final run transfers nothing
             classes.append(cls)
@@ -157,6 +164,59 @@ def run_one(chk, sseed, nrepos=1, directed=None):
                 url = r["url"]
                 on_disk = {e[0] for e in run_e2e.tree(w.sb, url)}
                 plans[url], _ = scenario.gen_plan(rng, fcls, r, w.cfgs[url], stores_f[url], skip_pool=on_disk)
+        if directed == "config-shrink":
+            url = final[0]["url"]
+            cfg = w.cfgs[url]
+            cns = sorted(cfg["codenames"])
+            comps_of = {cn: sorted(cfg["codenames"][cn]) for cn in cns}
+            drop_cn = rng.choice(cns) if len(cns) >= 2 else None
+            drop_comp = None
+            if drop_cn is None:
+                many = [cn for cn in cns if len(comps_of[cn]) >= 2]
+                if not many:
+                    chk.evaluated(None)
+                    chk.count("config-shrink:skipped(nothing to take out)")
+                    return
+                drop_comp = (many[0], rng.choice(comps_of[many[0]]))
+            new_lines = []
+            for ln in w.lines:
+                tk = ln.split(" ")
+                k = next((i for i, x in enumerate(tk) if x.startswith("http")), None)
+                if not ln.startswith("deb") or k is None or k + 1 >= len(tk):
+                    new_lines.append(ln)
+                    continue
+                lcns = tk[k + 1].split(",")
+                if drop_cn is not None:
+                    lcns = [c for c in lcns if c != drop_cn]
+                    if not lcns:
+                        continue
+                    tk[k + 1] = ",".join(lcns)
+                elif drop_comp[0] in lcns:
+                    if len(lcns) > 1:
+                        new_lines.append(ln)   # (a line for several codenames is left alone; the component stays configured there)
+                        drop_comp = None
+                        break
+                    rest = [c for c in tk[k + 2:] if c != drop_comp[1]]
+                    if not rest:
+                        continue
+                    tk = tk[:k + 2] + rest
+                new_lines.append(" ".join(tk))
+            if drop_cn is None and drop_comp is None:
+                chk.evaluated(None)
+                chk.count("config-shrink:skipped(nothing to take out)")
+                return
+            if drop_cn is not None:
+                cfg["codenames"].pop(drop_cn)
+            else:
+                cfg["codenames"][drop_comp[0]].pop(drop_comp[1])
+            w.lines = new_lines
+            w.sb.write_config(w.lines, w.settings)
+            if any(common.has_s3(r, w.cfgs[r["url"]], stores_f[r["url"]]) for r in final):
+                chk.evaluated(None)
+                chk.count("skipped(S3)")
+                return
+            plans, fcls = {}, "none"
+            chk.count("config_shrink_histories")
         replay = {"scenario_seed": sseed, "nrepos": nrepos, "directed": directed, "history": classes, "versions": kinds, "final": fcls, "lines": w.lines}
         res = run_e2e.execute(w.sb, final, stores_f, plans, vloop.RandomChooser(rng.randrange(1 << 30)))
         chk.traces += 1
@@ -248,6 +308,8 @@ def run(chk, tier, rng):
         run_one(chk, f"C08-removal-{chk.seed}-{i}", directed="removal-only")
     for i in range(4 if tier == "quick" else 40):
         run_one(chk, f"C08-flavour-{chk.seed}-{i}", directed="flavour-drop")
+    for i in range(4 if tier == "quick" else 60):
+        run_one(chk, f"C08-shrink-{chk.seed}-{i}", directed="config-shrink")
     for i in range(n):
         run_one(chk, f"C08-{chk.seed}-{i}", nrepos=2 if i % 6 == 5 else 1)
     chk.assumptions += ["S1: immutable pool paths", "S4: wipe protection disabled (wipe_*_ratio 0)", "S3 worlds skipped",
